@@ -41,7 +41,13 @@ def thr_three(arm, reward):
     return 1 if reward > 3 else 0
 
 
-ALL = {f.__name__: f for f in (thr_inside, thr_half, thr_outside, inverted, nonneg, thr_three)}
+def thr_big(arm, reward):
+    """arm-dependent threshold just above 2^53: decides on the low bits of very large integer rewards (identifiers, counters
+    in nanoseconds); everything of ordinary size is a failure"""
+    return 1 if reward > 2 ** 53 + 1 + _rank(arm) else 0
+
+
+ALL = {f.__name__: f for f in (thr_inside, thr_half, thr_outside, inverted, nonneg, thr_three, thr_big)}
 
 
 def identity_on_binary(fn, arms):
